@@ -106,7 +106,71 @@ func runRaceStress(a *args, res *result) {
 			}
 		}
 	}
+	// ---- several containers at once: state shared between containers (package-level
+	// variables of the library) is only touched concurrently when two of them allocate,
+	// resize or clear at the same time
+	if a.mine(idx) {
+		logCase("racestress four containers side by side")
+		raceSideBySide(a, res)
+		res.Evaluations++
+		fp := newFP()
+		fp.addStr("side-by-side")
+		res.nontrivial(fp.sum())
+	}
 	res.count("payload_reads_verified", atomic.LoadInt64(&payloadChecks))
+}
+
+func raceSideBySide(a *args, res *result) {
+	old := runtime.GOMAXPROCS(16)
+	defer runtime.GOMAXPROCS(old)
+	var seq int64
+	next := func(k int) *payload { return mkPayload(k, atomic.AddInt64(&seq, 1)) }
+	const keys = 600
+	type tgt struct {
+		store func(k int, v any)
+		load  func(k int) (any, bool)
+		del   func(k int)
+		clear func()
+	}
+	mk := func(kind string) tgt {
+		switch kind {
+		case "Map", "MapOf[int,*payload]":
+			m := newMap(mapSpec{Flavor: kind, Hint: noHint, NKeys: keys})
+			return tgt{m.Store, m.Load, m.Delete, m.Clear}
+		default:
+			c := newCache(cacheSpec{Flavor: kind, Ctor: "New", OptMask: 1 | 2, DefExp: time.Hour, Interval: time.Millisecond, NKeys: keys})
+			return tgt{func(k int, v any) { c.Set(k, v, time.Hour) }, c.Get, c.Delete, c.Clear}
+		}
+	}
+	var wg sync.WaitGroup
+	ops := int(a.n2) / 8
+	for gi, kind := range []string{"Map", "MapOf[int,*payload]", "Cache", "CacheOf[int,*payload]"} {
+		for rep := 0; rep < 2; rep++ {
+			wg.Add(1)
+			go func(kind string, g int) {
+				defer wg.Done()
+				rr := newRng(a.seed, uint64(g)+900)
+				t := mk(kind) // constructed by the goroutine that uses it
+				for i := 0; i < ops; i++ {
+					k := rr.intn(keys)
+					switch rr.intn(40) {
+					case 0:
+						t.clear()
+					case 1:
+						t = mk(kind) // a fresh container: another table allocation
+					case 2, 3, 4, 5, 6, 7, 8, 9:
+						v, _ := t.load(k)
+						verifyPayload(v, k, "Load", res)
+					case 10, 11, 12, 13:
+						t.del(k)
+					default:
+						t.store(k, next(k))
+					}
+				}
+			}(kind, gi*2+rep)
+		}
+	}
+	wg.Wait()
 }
 
 const jitterKeys = 4200
